@@ -427,3 +427,26 @@ Theorem C12_event_rate_unrepaired_in_span : forall rep bsz stp lo (cs : list eve
   run (er_step_unrepaired rep bsz stp) None cs = run (er_step rep bsz stp) None cs.
 Proof. exact event_rate_unrepaired_in_span_stream. Qed.
 Print Assumptions C12_event_rate_unrepaired_in_span.
+
+(* ================================================================== extension: rms for EVERY first sample index
+   C12_rms_contiguous(_any) take n | s (the output s0 = s / n is then an integer).  [rms_step_x] keeps the s0 of an
+   emitted block in INPUT samples (n times the s0 of the code: s / n for the first block, then plus the number of
+   windows emitted so far - the repaired code, fix-C12-rms, adds these counts instead of dividing again), so no
+   divisibility is needed: for every s, every n >= 1 and every chunking the blocks are contiguous ([contiguous_x]: each
+   starts n * (number of values) input samples after the previous one) and hold the per-block aggregates. *)
+From PV Require Import Stages.ProofsRmsX.
+Theorem C12_rms_x_values_any : forall (A O : Type) (agg : list A -> O) n h s (ds : list (list A)), 1 <= n ->
+  emits_values (run (rms_step_x true agg n) rms_init (mkstream h s ds)) (rms_blocks agg n (concat ds)).
+Proof. exact @rms_x_values_any. Qed.
+Print Assumptions C12_rms_x_values_any.
+Theorem C12_rms_x_contiguous_any : forall (A O : Type) (agg : list A -> O) n h s (ds : list (list A)), 1 <= n ->
+  exists st outs, run (rms_step_x true agg n) rms_init (mkstream h s ds) = Some (st, outs) /\
+                  contiguous_x n (h_scale n h) s outs.
+Proof. exact @rms_x_contiguous_any. Qed.
+Print Assumptions C12_rms_x_contiguous_any.
+Example C12_ex_rms_x :
+  let h := Hdr false (Some (1, None, 7)) in
+  option_map (fun r => map (fun b => (dat b, an b)) (snd r))
+             (run (rms_step_x true (sagg 6) 6) rms_init (inputs h 5 [6; 6; 7])) =
+  Some [([0], Some (An 5 6 None 7)); ([1], Some (An 11 6 None 7)); ([2], Some (An 17 6 None 7))].
+Proof. exact rms_x_ex. Qed.
